@@ -12,16 +12,16 @@ git -C /repo worktree add --detach $WT HEAD >/dev/null 2>&1 || { echo "worktree 
 cleanup() { git -C /repo worktree remove --force $WT >/dev/null 2>&1; rm -rf $WT; }
 trap cleanup EXIT
 cd $WT
-DEMO=$(ls $SRC/SEED/demo*_test.go $SRC/SEED/demo*.go 2>/dev/null | head -1)
+DEMO=$SRC/SEED/demo_test.go
 PKG=./$(dirname $DEMO_TARGET)
-tagarg=""; [ -n "$TAGS" ] && tagarg="-tags $TAGS"
+tagarg=(); [ -n "$TAGS" ] && tagarg=(-tags "$TAGS")
 # 1. demonstration WITHOUT the change
 cp $DEMO $WT/$DEMO_TARGET
-go test -vet=off -count=1 $tagarg $PKG > /tmp/confirm-$NAME-without.log 2>&1; RC_WITHOUT=$?
+go test -vet=off -count=1 "${tagarg[@]}" $PKG > /tmp/confirm-$NAME-without.log 2>&1; RC_WITHOUT=$?
 # 2. apply the change
 git apply $SRC/SEED/patch.diff || { echo "patch does not apply"; exit 2; }
 go build ./... > /tmp/confirm-$NAME-build.log 2>&1; RC_BUILD=$?
-go test -vet=off -count=1 $tagarg $PKG > /tmp/confirm-$NAME-with.log 2>&1; RC_WITH=$?
+go test -vet=off -count=1 "${tagarg[@]}" $PKG > /tmp/confirm-$NAME-with.log 2>&1; RC_WITH=$?
 # 3. existing tests with the change, demo removed
 rm -f $WT/$DEMO_TARGET
 go test -vet=off -count=1 $(go list ./... | grep -v 'ja3/crypto/tls') > /tmp/confirm-$NAME-suite.log 2>&1; RC_SUITE=$?
